@@ -244,12 +244,13 @@ Fixpoint set_dom (p : list pstep) (v : tval) : bool :=
 
 (* deleteChild compares the RAW bytes Path.ToRaw gives for the map's key type with the raw key bytes of the entries:
    a step of another kind than the map's keys (a string key on an integer-keyed map, a field id) has raw bytes too and
-   the comparison is between unrelated encodings; such last steps are outside the theorem (the spec calls them errors) *)
+   the comparison is between unrelated encodings; such last steps are outside the theorem (the spec calls them errors);
+   a raw key must be the encoding of a key of the map's key type *)
 Definition unset_last_ok (s : pstep) (v : tval) : bool :=
   match s, v with
   | PStrKey _, VMap kt _ _ => kt =? T_STRING
   | PField _, VMap _ _ _ => false
-  | PBinKey _, VMap kt _ _ => match key_of_step kt s with Some _ => true | None => false end
+  | PBinKey _, VMap _ _ _ => raw_key_ok s v
   | _, _ => true
   end.
 
